@@ -416,6 +416,25 @@ class FuncEval:
       elif isinstance(st, ast.If):
         t = ce.ev(f.module, st.test, f.cls, env)
         self._block(ce, f, st.body if t else st.orelse, env)
+      elif isinstance(st, ast.For) and not st.orelse:
+        seq = ce.ev(f.module, st.iter, f.cls, env)
+        if not isinstance(seq, (list, tuple, str, range, dict, frozenset)):
+          raise NotConst(f"for loop over a non-constant at line {st.lineno}")
+        seq = list(seq)
+        if len(seq) > self.MAX_LOOP:
+          raise NotConst(f"for loop at line {st.lineno} exceeds {self.MAX_LOOP} rounds")
+        for item in seq:
+          self._bind(st.target, item, env)
+          try:
+            self._block(ce, f, st.body, env)
+          except _BreakLoop:
+            break
+          except _ContinueLoop:
+            continue
+      elif isinstance(st, ast.Break):
+        raise _BreakLoop()
+      elif isinstance(st, ast.Continue):
+        raise _ContinueLoop()
       elif isinstance(st, ast.While) and not st.orelse and not any(isinstance(x, (ast.Break, ast.Continue)) for x in ast.walk(st)):
         # bounded: a loop that does not end within MAX_LOOP rounds leaves the evaluable subset
         rounds = 0
@@ -448,6 +467,14 @@ class FuncEval:
 class _Return(Exception):
   def __init__(self, value):
     self.value = value
+
+
+class _BreakLoop(Exception):
+  pass
+
+
+class _ContinueLoop(Exception):
+  pass
 
 
 class _CallingConstEval(ConstEval):
